@@ -7,6 +7,7 @@ import GapicModel.Lemmas.WrapWhole
 import GapicModel.Lemmas.WrapWidth
 import GapicModel.Lemmas.RstWords
 import GapicModel.Lemmas.CodeLines
+import GapicModel.Lemmas.FixWsRuns
 import GapicModel.Pinned.Funcs
 import GapicModel.PyRt
 /-
@@ -209,6 +210,41 @@ example : Lemmas.CodeLines.codeLines (fixWhitespace "x = 1  \n\n\n\n\ndef f():\n
     = ["x = 1".toList, "def f():".toList, "    a = 1".toList, "    b = 2".toList] ∧
     fixWhitespace "x = 1  \n\n\n\n\ndef f():\n    a = 1\n\n\n    b = 2\n\n\n".toList
       ≠ "x = 1  \n\n\n\n\ndef f():\n    a = 1\n\n\n    b = 2\n\n\n".toList := by decide
+
+/-- **`fix_whitespace` is idempotent** — for EVERY text, formatting the formatter's output again changes nothing
+(the clause "is idempotent" of C20, at full strength, no hypothesis on the text).  Proof (Lemmas/FixWsRuns.lean,
+Lemmas/MapRuns.lean, Lemmas/RegexComplete.lean): each of the three `re.sub` passes is shown to be EQUAL to a run-local
+rewriting of the maximal whitespace runs of the text (`pass1_eq`, `pass2_eq`, `pass3_eq` — the regex engine's
+soundness gives the shape of every reported match, its completeness for look-free patterns gives that a position the
+left-most search skipped admits no match), so the whole function is one such pass followed by `rstrip() + "\n"`
+(`fix_is_one_pass_over_runs`); passes that keep runs non-empty and white compose run by run (`mapRuns_fuse`), and the
+composed per-run rewriter is idempotent by cases on which pass fires (`H_idem`). -/
+theorem fix_idempotent (s : List Char) : fixWhitespace (fixWhitespace s) = fixWhitespace s :=
+  Lemmas.FixWsRuns.fixWhitespace_idem s
+
+/-- what `fix_whitespace` computes, exactly: every maximal run `R` of whitespace is replaced by `H R la` (`la` the
+token that follows): spaces before line breaks dropped; then `"\n\n\n"` if `R` has the shape `\s+\n\s*\n\s*\n` in
+front of `class|def|@|#|_`, else `"\n\n" ++ indent` if it has the shape `\s+\n\s*\n(    )+` in front of a word
+character, `_`, `@` or `#`; nothing else in the text is touched; then `rstrip() + "\n"`. -/
+theorem fix_is_one_pass_over_runs (s : List Char) :
+    fixWhitespace s = Lemmas.MapRuns.tailF (isWs T) (Lemmas.MapRuns.mapRuns (isWs T) Lemmas.FixWsRuns.H s) :=
+  Lemmas.FixWsRuns.fixWhitespace_eq s
+
+/-- the model's regex engine decides matching exactly for patterns without look-around: it fails at a position iff
+NO run of the pattern exists there (soundness `m_sound` + completeness `Run.complete`); the three patterns of
+`fix_whitespace` are such patterns -/
+theorem matcher_exact_on_fix_patterns (pre rest : List Char) :
+    (matchAt T ws1Re pre rest = none ↔ ¬ ∃ st, Run T ws1Re ⟨pre, rest, []⟩ st) ∧
+    (matchAt T ws2Re pre rest = none ↔ ¬ ∃ st, Run T ws2Re ⟨pre, rest, []⟩ st) ∧
+    (matchAt T ws3Re pre rest = none ↔ ¬ ∃ st, Run T ws3Re ⟨pre, rest, []⟩ st) :=
+  ⟨matchAt_none_iff (by decide) pre rest, matchAt_none_iff (by decide) pre rest, matchAt_none_iff (by decide) pre rest⟩
+
+/-- a test, not the theorem: on a source where all three passes fire the second application is the identity and the
+first is not -/
+example : fixWhitespace (fixWhitespace "x = 1  \n\n\n\n\ndef f():\n    a = 1\n\n\n    b = 2\n\n\n".toList)
+      = fixWhitespace "x = 1  \n\n\n\n\ndef f():\n    a = 1\n\n\n    b = 2\n\n\n".toList ∧
+    fixWhitespace "x = 1  \n\n\n\n\ndef f():\n    a = 1\n\n\n    b = 2\n\n\n".toList
+      = "x = 1\n\n\ndef f():\n    a = 1\n\n    b = 2\n".toList := by decide
 
 /-! ## `textwrap` core (`_wrap_chunks`): words are kept, width is respected
 (helper lemmas and proofs: `Lemmas/Textwrap.lean`) -/
